@@ -47,6 +47,17 @@ def shards(tier):
 
 
 def twin(R, obs, name, src, calls, family, module=None, in_rng=None):
+    """one source under a wall-clock allowance (a program may square integers in a loop: bignum arithmetic far below
+    the step budget; that is resource exhaustion, dropped and counted)"""
+    try:
+        with time_limit(30):
+            _twin(R, obs, name, src, calls, family, module, in_rng)
+    except CaseTimeout:
+        nslapi.VM._VERIF_OBSERVER = None
+        R.count("dropped_case_timeout")
+
+
+def _twin(R, obs, name, src, calls, family, module=None, in_rng=None):
     """calls: [(fname, [(args, globals)])]"""
     rec0, rec1 = passes.BoundaryRecorder(check=False, keep_listings=True), passes.BoundaryRecorder(check=False, keep_listings=True)
     c0 = diff.Compiled(src, optimize=False, listener=rec0)
@@ -182,11 +193,7 @@ def run_shard(tier, seed, shard, n, R):
         base = mrng.choice(seeds)
         src = base if j % 7 == 0 else whole.mutate(base, mrng, mrng.choice([1, 1, 2]))
         try:
-            with time_limit(20):
-                twin(R, obs, "mutant:%d:%d" % (shard, j), src, None, "whole-language", in_rng=mrng)
-        except CaseTimeout:
-            nslapi.VM._VERIF_OBSERVER = None
-            R.count("dropped_case_timeout")
+            twin(R, obs, "mutant:%d:%d" % (shard, j), src, None, "whole-language", in_rng=mrng)
         except RecursionError:
             R.count("dropped_RecursionError")       # a mutant that recurses without bound: resource exhaustion, not judged
         R.count("whole_language_candidates")
